@@ -360,7 +360,7 @@ def fix_cases(ctx):
                     continue
                 for t in times:
                     for o in OFFS:
-                        if quick and not (date in special or (t == '23:59' and o in ('+0000', '-2359', '+2400')) or (t == '00:00' and o == '+1400')):
+                        if quick and not (date in special or t in ('23:59', '00:00') or o in ('+0000', '-2359', '+2400')):
                             continue
                         add('%s %s%s' % (date, t, o), None, 'fields')
     # separators, seconds, blanks, zones, surroundings
